@@ -6,9 +6,12 @@ operators) and on Model/Func.v; after EVERY op the dictionaries of the returned 
 list_of_points / list_of_stationary_points / weights / reuse flag of every function, and both leaf counters, are
 compared exactly (order of dictionary entries included).
 Two streams so that both sides of the guard of C07_inv_partial are exercised:
-  guarded       : composite weights non-zero after merging, query points without explicit zero coefficient;
-                  the invariant (funclib.check_inv) must hold on the implementation after every op
-  zero-weights  : weights that are / cancel to zero, query points scaled by 0 (F-C07a / F-C07b / F-C07c live here);
+  guarded       : no composite is the zero function (cancelling weights such as f1 + f2 - f2 and zero-weight operands
+                  such as 0*f1 + f2 ARE included: Function.__add__ prunes them since /repo 5162ea4), query points
+                  without explicit zero coefficient; the invariant (funclib.check_inv) must hold on the implementation
+                  after every op; contains the regression cases of the repaired F-C07a
+  zero-weights  : zero functions (bare zero scaling 0*f, 0*(f+g); f - f), query points scaled by 0
+                  (F-C07b / F-C07c / F-C07d live here);
                   EVERY invariant violation found there must disappear when the triggers of the listed findings are
                   repaired on the implementation (else it is reported), a few are shrunk and matched individually.
 Search: random sequences on the implementation, invariant evaluated after every op, first failing prefix shrunk."""
@@ -48,15 +51,15 @@ def universe(reuse0, reuse1, terms):
     return [("NewPoint",), ("NewLeaf", reuse0), ("NewLeaf", reuse1), ("Combine", terms)]
 
 
-def alphabet(points, reduced=False):
-    """every call on the three functions of the universe; reduced: fixed_point only on the composite
-    (stationary_point and fixed_point differ only by the gradient handed to add_point)"""
+def alphabet(points, reduced=False, funcs=(0, 1, 2)):
+    """every call on the three functions of the universe (the last one is the composite); reduced: fixed_point
+    only on the composite (stationary_point and fixed_point differ only by the gradient handed to add_point)"""
     al = []
-    for f in (0, 1, 2):
+    for f in funcs:
         for p in points:
             al += [("Oracle", f, p), ("Gradient", f, p), ("Value", f, p)]
         al += [("Stationary", f)]
-        if f == 2 or not reduced:
+        if f == funcs[-1] or not reduced:
             al += [("Fixed", f)]
     return al
 
@@ -81,14 +84,48 @@ def exhaustive_cases(tier):
         cases.append((universe(False, True, [(0, -1), (1, 0.5)]), body, "guarded"))
         cases.append((universe(False, False, [(0, 2), (1, 1)]), body, "guarded"))
         cases.append((universe(True, True, [(1, 1), (0, -4)]), body, "guarded"))
-    z_len = 2 if tier == "quick" else 3
+    # cancelling weights are pruned by Function.__add__ (repaired F-C07a): f0 + f1 - f1 is an ordinary composite
+    c_len = 2 if tier == "quick" else 3
     for r0 in (True, False):
         for r1 in (True, False):
-            for body in sequences(alphabet([X0, ZX0]), z_len):
-                cases.append((universe(r0, r1, [(0, 1), (1, 1), (1, -1)]), body, "zero"))
+            for body in sequences(alphabet([X0]), c_len):
+                cases.append((universe(r0, r1, [(0, 1), (1, 1), (1, -1)]), body, "guarded"))
+    for body in sequences(alphabet([X0]), 2):
+        cases.append((universe(True, False, [(0, 0), (1, 2)]), body, "guarded"))          # 0*f0 + 2*f1 = {f1: 2}
+    # what is left of the zero weights: the zero function (bare zero scaling / everything cancelled), 0-scaled queries
+    z_len = 2 if tier == "quick" else 3
+    for body in sequences(alphabet([X0, ZX0]), z_len):
+        cases.append((universe(True, True, [(0, 0)]), body, "zero"))                      # 0*f0 = {f0: 0}
+        cases.append((universe(False, True, [(0, 0)]), body, "zero"))
+        cases.append((universe(True, False, [(0, 1), (0, -1)]), body, "zero"))            # f0 - f0 = {}
+    for body in sequences(alphabet([X0, ZX0], funcs=(0, 1, 3)), 2):
+        cases.append((universe(True, False, [(0, 1), (1, 2)]) + [("Combine", [(2, 0)])], body, "zero"))   # 0*(f0+2f1)
     for body in sequences(alphabet([X0, ZX0]), 2):
-        cases.append((universe(True, False, [(0, 0), (1, 2)]), body, "zero"))
+        cases.append((universe(True, False, [(0, 1), (1, 2)]), body, "zero"))             # 0-scaled queries only
+    # explicit dictionaries handed to the constructor
+    for body in sequences(alphabet([X0]), 2):
+        pre = [("NewPoint",), ("NewLeaf", True), ("NewLeaf", False)]
+        cases.append((pre + [("Direct", [(1, 2), (0, -1)], False)], body, "guarded"))
+        for r0, r1 in ((True, False), (False, True), (True, True)):
+            cases.append(([("NewPoint",), ("NewLeaf", r0), ("NewLeaf", r1), ("Direct", [(0, 1), (1, 0)], r0 and r1)],
+                          body, "zero"))                                                   # {f0: 1, f1: 0}
     return cases
+
+
+# regression cases of repaired findings (fixed: 5162ea4, F-C07a): a failure here is a VIOLATION, never a known finding
+def regression_cases():
+    out = []
+    for r0 in (False, True):
+        for r1 in (True, False):
+            pre = [("NewPoint",), ("NewLeaf", r0), ("NewLeaf", r1)]
+            F = ("Combine", [(0, 1), (1, 1), (1, -1)])
+            out.append(pre + [("Oracle", 0, X0), F, ("Oracle", 2, X0)])                    # the listed trigger
+            out.append(pre + [F, ("Oracle", 0, X0), ("Oracle", 2, X0), ("Gradient", 2, X0)])
+            out.append(pre + [("Oracle", 0, X0), ("Oracle", 1, X0), F, ("Value", 2, X0), ("Stationary", 2)])
+            out.append(pre + [("Oracle", 1, X0), ("Combine", [(0, 0), (1, 2)]), ("Oracle", 2, X0)])   # 0*f0 + 2*f1
+            out.append(pre + [("Oracle", 0, X0), ("Combine", [(0, 2), (1, 1)]), ("Combine", [(2, 1), (1, -1)]),
+                              ("Oracle", 3, X0), ("Oracle", 2, X0)])                      # (2 f0 + f1) - f1, nested
+    return out
 
 
 # ---------------------------------------------------------------------------------------------- random sequences
@@ -118,19 +155,26 @@ class Gen(object):
                 self.viol = dict(v, at_op=len(self.ops) - 1)
 
     def merged(self, terms):
-        acc = {}
-        for fid, q in terms:
-            for k, v in self.w.funcs[fid].decomposition_dict.items():
-                kk = self.w.fmap[k]
-                acc[kk] = acc.get(kk, Fraction(0)) + to_fraction(v) * to_fraction(q)
-        return acc
+        """the weights the real operators give to q1*t1 + q2*t2 + ... (builds and discards the object)"""
+        F = self.w.build_combo(terms)
+        return {self.w.fmap[k]: to_fraction(v) for k, v in F.decomposition_dict.items()}
 
     def gen_combine(self):
         rng = self.rng
         nf = len(self.w.funcs)
         for _ in range(30):
             terms = [(rng.randrange(nf), rng.choice(WEIGHTS)) for _ in range(rng.choice([1, 2, 2, 3]))]
-            if self.profile == "zero" and rng.random() < 0.75:
+            r = rng.random()
+            if self.profile == "zero" and r < 0.7:
+                # the zero function: bare zero scaling (also of a composite), or everything cancels
+                f = rng.randrange(nf)
+                if r < 0.4:
+                    terms = [(f, rng.choice([0, 0.0]))]
+                else:
+                    q = rng.choice(WEIGHTS)
+                    terms = [(f, q), (f, -q)]
+            elif r < 0.35:
+                # cancelling or zero-weight operands that Function.__add__ prunes away
                 f = rng.randrange(nf)
                 if rng.random() < 0.3:
                     terms.insert(rng.randrange(len(terms) + 1), (f, 0))
@@ -142,10 +186,22 @@ class Gen(object):
             nz = [v for v in m.values() if v != 0]
             if not all(FL.is_pow2(v) and abs(v) <= 8 and abs(v) >= Fraction(1, 8) for v in nz):
                 continue
-            if self.profile == "guarded" and len(nz) != len(m):
+            if self.profile == "guarded" and (len(nz) != len(m) or not m):
                 continue
             return ("Combine", terms)
         return None
+
+    def gen_direct(self):
+        """explicit dictionary over distinct leaf functions handed to the constructor"""
+        rng = self.rng
+        leaves = [i for i, g in enumerate(self.w.funcs) if g.get_is_leaf()]
+        ks = rng.sample(leaves, rng.randint(1, min(3, len(leaves))))
+        w = [(k, rng.choice(WEIGHTS)) for k in ks]
+        if self.profile == "zero" and rng.random() < 0.7:
+            j = rng.randrange(len(w))
+            w[j] = (w[j][0], 0)
+        all_diff = all(self.w.funcs[k].reuse_gradient for k in ks)
+        return ("Direct", w, all_diff and rng.random() < 0.7)
 
     def gen_query_tree(self):
         rng = self.rng
@@ -181,10 +237,12 @@ class Gen(object):
             return self.emit(("NewExpr",), check)
         if r < 0.11 and nleaf < 4:
             return self.emit(("NewLeaf", rng.random() < 0.5), check)
-        if r < 0.24 and ncomp < 3:
+        if r < 0.21 and ncomp < 3:
             op = self.gen_combine()
             if op:
                 return self.emit(op, check)
+        if r < 0.24 and ncomp < 3 and nleaf >= 1:
+            return self.emit(self.gen_direct(), check)
         f = rng.randrange(nf)
         if ncomp and rng.random() < 0.45:      # favour composites
             f = rng.choice([i for i, g in enumerate(self.w.funcs) if not g.get_is_leaf()])
@@ -245,7 +303,7 @@ def outcome(ops, repair=None, rng_seed=12345):
     that created an object used later)"""
     rng = random.Random(rng_seed)
     try:
-        _, _, _, viol = FL.run_ops(ops, full=False, repair=repair, check=make_check(rng))
+        _, _, _, viol = FL.run_ops(ops, full=False, repair=repair, check=make_check(rng), strict=True)
     except Exception:
         return "error", None
     return ("viol", viol) if viol else ("ok", None)
@@ -257,33 +315,43 @@ def fails(ops, repair=None):
 
 
 def shrink(ops):
+    """drop ops while the op list stays executable and well scoped (outcome() checks both) and still violates the
+    SAME clause of the invariant"""
     ops = list(ops)
-    # cut after the first failing op
+    first = fails(ops)
+    if not first:
+        return ops
     changed = True
     while changed:
         changed = False
         for i in range(len(ops) - 1, -1, -1):
             cand = ops[:i] + ops[i + 1:]
-            if fails(cand):
+            v = fails(cand)
+            if v and v["clause"] == first["clause"]:
                 ops = cand
                 changed = True
     return ops
 
 
-def has_zero_weight(ops, all_zero=False):
-    """does some Combine of the list build a composite with a zero weight (explicit or by cancellation)?
-    all_zero: ... a composite ALL of whose weights are zero (the zero function)?"""
+def has_zero_function(ops, unpruned_only=False):
+    """does some Combine / Direct of the list build the zero function?  unpruned_only: ... with a NON-EMPTY dictionary
+    all of whose weights are zero (a bare zero scaling; the only way an operator-built composite carries a zero)"""
     try:
         w = FL.World()
         for op in ops:
             w.apply(op)
-            if op[0] == "Combine":
+            if op[0] in ("Combine", "Direct"):
                 vals = list(w.funcs[-1].decomposition_dict.values())
-                if (all(v == 0 for v in vals) if all_zero else any(v == 0 for v in vals)):
+                if all(v == 0 for v in vals) and (vals or not unpruned_only):
                     return True
     except Exception:
         return False
     return False
+
+
+def has_ctor_zero_weight(ops):
+    """a dictionary handed to the constructor with a zero weight next to a non-zero one"""
+    return any(op[0] == "Direct" and any(q == 0 for _, q in op[1]) and any(q != 0 for _, q in op[1]) for op in ops)
 
 
 def has_zero_query(ops):
@@ -299,6 +367,38 @@ def has_zero_query(ops):
     return False
 
 
+def model_violates(opss):
+    """for each op list: does the MODEL (Model/Func.v, evaluated by coqc) also break the invariant (inv_b = false)
+    on the very op list, as seen by the model?  A violation of the implementation is a consequence of a listed finding
+    only if the faithful model predicts it; if the model keeps the invariant where the implementation breaks it, the
+    implementation has left the modelled behaviour and the violation is new.  None for a list that is not executable."""
+    import re
+    from .common import workdir, coqc
+    lits = []
+    for ops in opss:
+        try:
+            inp, _, _, _ = FL.run_ops(ops, full=False)
+            lits.append(inp)
+        except Exception:
+            lits.append(None)
+    good = [l for l in lits if l is not None]
+    if not good:
+        return [None] * len(opss)
+    path = os.path.join(workdir(), "c07_modelinv_%d.v" % (abs(hash(tuple(good))) % 10 ** 9))
+    with open(path, "w") as f:
+        f.write("From Coq Require Import List QArith ZArith String Bool.\n")
+        f.write("From PV Require Import Model.Dict Model.Terms Model.Func Proofs.C07InvB.\nImport ListNotations.\n")
+        f.write("Definition cases : list (bool * list op) := [\n%s\n].\n" % ";\n".join(good))
+        f.write("Definition result := Eval vm_compute in (map (fun c => negb (inv_b (run (snd c)))) cases).\nPrint result.\n")
+    rc, out, err = coqc(path)
+    m = re.search(r"result\s*=\s*\[(.*?)\]\s*:\s*list bool", out, re.S)
+    if rc != 0 or not m:
+        raise RuntimeError("model_violates: coqc failed: %s %s" % (out[-500:], err[-1500:]))
+    vals = [t.strip() == "true" for t in m.group(1).split(";")] if m.group(1).strip() else []
+    it = iter(vals)
+    return [None if l is None else next(it) for l in lits]
+
+
 def load_known_c07():
     out = []
     paths = [os.path.join(VERIF, "KNOWN_FINDINGS.json")]
@@ -312,34 +412,47 @@ def load_known_c07():
     return out
 
 
+def shape_known(ops, ids):
+    """cheap part of is_known: the id of the first listed finding whose trigger shape is present in the op list and
+    whose repair (alone, or the smallest set of repairs of PRESENT shapes) makes the violation disappear"""
+    import itertools
+    shapes = []
+    if "F-C07e" in ids and has_ctor_zero_weight(ops):
+        shapes.append(("F-C07e", "prune-weights"))
+    if "F-C07d" in ids and has_zero_function(ops, unpruned_only=True):
+        shapes.append(("F-C07d", "prune-weights"))
+    if "F-C07b" in ids and has_zero_query(ops):
+        shapes.append(("F-C07b", "prune-queries"))
+    if "F-C07c" in ids and has_zero_function(ops):
+        shapes.append(("F-C07c", "skip-zero-function"))
+    # (an op list that is not executable under a repair, because fewer leaves get created, counts as repaired)
+    for r in range(1, len(shapes) + 1):
+        for sub in itertools.combinations(shapes, r):
+            if outcome(ops, repair=tuple(sorted(set(rep for _, rep in sub))))[0] != "viol":
+                return sub[0][0]
+    return None
+
+
 def is_known(payload, known):
     """A violation is a listed finding iff (a) it is an invariant violation of an op list that contains the
-    finding's trigger shape (a composite built with a zero / cancelling weight for F-C07a, a query point with an
-    explicit zero coefficient for F-C07b, a composite all of whose weights cancel for F-C07c) and (b) it DISAPPEARS
-    when exactly that trigger is repaired on the implementation (weights pruned and flag recomputed at construction,
-    resp. query point pruned before the call, resp. stationary_point / fixed_point / add_point on the zero function
-    ignored).  Anything else is not known."""
+    finding's trigger shape (an explicit constructor dictionary with a zero weight next to a non-zero one for F-C07e,
+    a composite that is a bare zero scaling {f: 0, ...} for F-C07d, a query point with an explicit zero coefficient
+    for F-C07b, a composite that is the zero function -- {f: 0} or {} -- for F-C07c), (b) it DISAPPEARS when exactly
+    that trigger is repaired on the implementation (weights pruned at construction, resp. query point pruned before the
+    call, resp. stationary_point / fixed_point / add_point on the zero function ignored) and (c) the MODEL predicts
+    the violation on this very op list (model_violates).  Anything else is not known; in particular an operator-built
+    composite with a zero weight NEXT TO a non-zero one (f1 + f2 - f2 before /repo 5162ea4) matches no shape."""
     if payload.get("kind") != "invariant-violated" or "ops" not in payload:
         return None
     ops = [FL.detuple(o) for o in payload["ops"]]
     if not fails(ops):
         return None
-    ids = set(k["id"] for k in known)
-    shapes = []
-    if "F-C07a" in ids and has_zero_weight(ops):
-        shapes.append(("F-C07a", "prune-weights"))
-    if "F-C07b" in ids and has_zero_query(ops):
-        shapes.append(("F-C07b", "prune-queries"))
-    if "F-C07c" in ids and has_zero_weight(ops, all_zero=True):
-        shapes.append(("F-C07c", "skip-zero-function"))
-    # smallest set of repairs of triggers PRESENT in the op list under which the violation disappears
-    # (an op list that is not executable under a repair, because fewer leaves get created, counts as repaired)
-    import itertools
-    for r in range(1, len(shapes) + 1):
-        for sub in itertools.combinations(shapes, r):
-            if outcome(ops, repair=tuple(rep for _, rep in sub))[0] != "viol":
-                return sub[0][0]
-    return None
+    fid = shape_known(ops, set(k["id"] for k in known))
+    if fid is None:
+        return None
+    if model_violates([ops])[0] is not True:
+        return None          # the model keeps the invariant on this op list: not a consequence of a listed finding
+    return fid
 
 
 def known_findings(known):
@@ -357,6 +470,8 @@ def replay(payload):
     ops = [FL.detuple(o) for o in payload["ops"]]
     if payload.get("kind") == "invariant-violated":
         return bool(fails(ops))
+    if payload.get("kind") == "regression-failed":
+        return outcome(ops)[0] != "ok"
     if payload.get("kind") == "implementation-raised":
         try:
             FL.run_ops(ops, full=False)
@@ -384,7 +499,7 @@ def _leaf_flags(ops):
     for op in ops:
         if op[0] == "NewLeaf":
             fl.append(True)
-        elif op[0] == "Combine":
+        elif op[0] in ("Combine", "Direct"):
             fl.append(False)
     return fl
 
@@ -397,7 +512,7 @@ def correspondence(tier, seed, corpus=()):
     streams = {}
     for name in ("guarded", "zero"):
         streams[name] = dict(cases=[], opss=[], hist={}, lens=[], distinct=set(), viols=[], exhaustive=0, randoms=0,
-                             raised=[])
+                             raised=[], regress=[], regressions=0, viol_case={})
 
     def add(name, ops, inp, dump, viol):
         s = streams[name]
@@ -410,7 +525,25 @@ def correspondence(tier, seed, corpus=()):
             s["distinct"].add(inp)
         if viol:
             s["viols"].append((ops, viol))
+            s["viol_case"][len(s["cases"]) - 1] = (ops, viol)
 
+    for ops in regression_cases():
+        s = streams["guarded"]
+        try:
+            inp, dump, _, viol = FL.run_ops(ops, full=True, check=check)
+        except (Exception, RecursionError) as e:
+            s["raised"].append((ops, repr(e)[:300]))
+            continue
+        if viol:
+            inp, dump, _, _ = FL.run_ops(ops, full=True)
+            # the repaired defect is back iff pruning the weights at construction (what 5162ea4 does) cures the case;
+            # otherwise it is some other defect and goes the ordinary way (shrunk, matched against the findings)
+            if outcome(ops, repair="prune-weights")[0] == "ok":
+                s["regress"].append(dict(kind="regression-failed", fixed_by="5162ea4", ops=ops, clause=viol["clause"],
+                                         detail=viol))
+                viol = None
+        add("guarded", ops, inp, dump, viol)
+        s["regressions"] += 1
     for item in corpus or []:
         ops = [FL.detuple(o) for o in item["ops"]]
         inp, dump, _, viol = FL.run_ops(ops, full=True, check=None)
@@ -453,11 +586,35 @@ def correspondence(tier, seed, corpus=()):
         for i in bad[:3]:
             mism.append(dict(kind="model-differs", ops=s["opss"][i], implementation=s["cases"][i][1],
                              model=model_output(IMPORTS, RUN, s["cases"][i][0])[:3000]))
-        problems = []
+        problems = list(s["regress"][:2])
         seen = set()
         for ops, err in s["raised"][:2]:
             # every op of these streams is a documented call on valid arguments: it must not raise
             problems.append(dict(kind="implementation-raised", ops=ops, error=err, stream_profile=name))
+        # an invariant violation on a case where model and implementation DISAGREE is not a consequence of modelled
+        # (= listed) behaviour unless the model breaks the invariant on it too: report the first one the model does
+        # not predict, shrunk while it keeps both properties
+        off_model = [s["viol_case"][i] for i in bad if i in s["viol_case"]][:6]
+        if off_model:
+            pres = [ops[:viol["at_op"] + 1] if "at_op" in viol else ops for ops, viol in off_model]
+            agree = model_violates(pres)
+            for pre, (ops, viol), ag in zip(pres, off_model, agree):
+                if ag is True:
+                    continue
+                small, t_sh = list(pre), time.time()
+                changed = True
+                while changed and time.time() - t_sh < 45:
+                    changed = False
+                    for i in range(len(small) - 1, -1, -1):
+                        cand = small[:i] + small[i + 1:]
+                        vc = fails(cand)
+                        if vc and vc["clause"] == viol["clause"] and model_violates([cand])[0] is False:
+                            small, changed = cand, True
+                            break
+                v2 = fails(small) or viol
+                problems.append(dict(kind="invariant-violated", ops=small, clause=v2["clause"], detail=v2,
+                                     stream_profile=name, note="the model keeps the invariant on this op list"))
+                break
         # violations that survive ALL repairs cannot be one of the listed findings: report those first
         unexplained = []
         if name == "zero":
@@ -489,13 +646,17 @@ def correspondence(tier, seed, corpus=()):
             evaluations=len(s["cases"]), distinct_nontrivial=len(s["distinct"]),
             rule=("op sequences on real Function objects vs Model/Func.v, dumps after every op; exhaustive over fixed "
                   "2-leaf/1-composite universes + seeded random longer ones (<=4 leaves, <=3 composites, nested sums); "
-                  + ("weights non-zero after merging, no zero coefficient in query points" if name == "guarded" else
-                     "weights that are or cancel to zero, query points scaled by 0")
+                  + ("no composite is the zero function (cancelling / zero-weight operands pruned by __add__ included, "
+                     "with the regression cases of the repaired F-C07a), no zero coefficient in query points"
+                     if name == "guarded" else
+                     "zero functions (0*f, 0*(f+g), f - f) and query points scaled by 0")
                   + "; non-trivial = at least one call on a composite; distinct by op list"),
             mismatches=mism, n_mismatch=len(bad), problems=problems, n_invariant_violations=len(s["viols"]),
             n_implementation_raised=len(s["raised"]), n_violations_not_explained_by_known_triggers=s["n_unexplained"],
             samples=[dict(ops=s["opss"][i], final_state=s["cases"][i][1][1]) for i in sample_i],
+            n_regression_failed=len(s["regress"]),
             distribution=dict(op_histogram=dict(sorted(s["hist"].items())), exhaustive_sequences=s["exhaustive"],
+                              regression_sequences=s["regressions"],
                               random_sequences=s["randoms"], len_min=min(s["lens"]), len_max=max(s["lens"]),
                               len_mean=round(sum(s["lens"]) / len(s["lens"]), 2),
                               seconds_model=round(t_model, 1), seconds_implementation_both_streams=round(t_impl, 1))))
@@ -508,9 +669,10 @@ def search(tier, seed):
     the listed findings, shrunk, is the replay."""
     rng = random.Random(seed + 70707)
     check = make_check(random.Random(seed + 7))
-    known = load_known_c07()
+    ids = set(k["id"] for k in load_known_c07())
     n = 1500 if tier == "quick" else 15000
     t0 = time.time()
+    maybe = []          # violations whose shape / repair say "listed finding": the model still has to agree (batched)
     for i in range(n):
         if time.time() - t0 > (100 if tier == "quick" else 1200):
             break
@@ -520,10 +682,21 @@ def search(tier, seed):
         except Exception as e:
             return dict(kind="implementation-raised", ops=g.ops + [getattr(g, "pending", None)], error=repr(e)[:300])
         if g.viol:
-            small = shrink(g.ops[:g.viol["at_op"] + 1])
+            prefix = g.ops[:g.viol["at_op"] + 1]
+            small = shrink(prefix)
             v = fails(small) or g.viol
             payload = dict(kind="invariant-violated", ops=small, clause=v["clause"], detail=v)
-            if is_known(payload, known):
-                continue
-            return payload
+            if shape_known(small, ids) is None:
+                return payload
+            if len(maybe) < 40:
+                maybe.append((payload, prefix, g.viol))
+    if maybe:
+        agree = model_violates([p["ops"] for p, _, _ in maybe] + [pre for _, pre, _ in maybe])
+        k = len(maybe)
+        for j, (payload, prefix, viol) in enumerate(maybe):
+            if agree[j] is not True:
+                return payload
+            if agree[k + j] is not True:
+                return dict(kind="invariant-violated", ops=prefix, clause=viol["clause"], detail=viol,
+                            note="not shrunk: the shrunk sequence is a listed finding, this one is not predicted by the model")
     return None
